@@ -523,16 +523,20 @@ def replay(ctx, prop, path):
     if hasattr(prop, "replay"):
         return prop.replay(ctx, doc)
     ops = r.get("ops")
+    if not ops and r.get("ops_file"):
+        import gzip
+        ops = gzip.open(r["ops_file"], "rt").read().split("\n")
+        ops = [o for o in ops if o]
     if not ops:
         print(json.dumps(r, indent=1)[:4000])
         return 0
     exe = prop.impl_driver(ctx)
     out, rc, err = ctx.run_lines(exe, ops)
-    print("implementation:", out, "rc", rc)
+    print("implementation:", [o[:600] for o in out], "rc", rc)
     if err.strip():
         print(err[-2000:])
     try:
-        print("model:         ", ctx.run_model(ops))
+        print("model:         ", [o[:600] for o in ctx.run_model(ops)])
     except Exception as e:
         print("model driver failed:", e)
     return 0
